@@ -78,7 +78,11 @@ def check(an: Analysis) -> None:
         ob.fail(rec, None, f"the metric is recorded into {len(cs)} scopes (must be exactly the innermost one)")
     for c in cs:
         ob.inst(rec, c)
-        recv = c.func.value  # type: ignore[union-attr]
+        recv = unwrap(d.inline(c.func.value))  # type: ignore[union-attr]
+        if isinstance(recv, ast.Call):
+            from ..loader import set_parents
+
+            set_parents(recv)
         if not (isinstance(recv, ast.Call) and an.callee(rec, recv) == "contextvars.ContextVar.get" and c02.contextvar_owner(an, rec, recv.func.value) == prog.cls(MC).qualname and not recv.args):  # type: ignore[union-attr]
             ob.fail(rec, c, "the target is not the scope current in the recording task (MetricsContext._context.get())")
         mk = next((k.value for k in c.keywords if k.arg == "merge"), None)
